@@ -98,7 +98,12 @@ Cat == [
   eqstruct   |-> [toks |-> <<"pub","x","x","x","x","x","()","x","{}">>, label |-> FALSE,
                   text |-> "pub struct D{i}<T = ()> { pub t: T }", q |-> ""],
   eqtrait    |-> [toks |-> <<"pub","x","x","x","x","x","fn","()","x","{}">>, label |-> FALSE,
-                  text |-> "pub trait V{i}<T = fn()> { fn v(&self, t: T); }", q |-> ""]
+                  text |-> "pub trait V{i}<T = fn()> { fn v(&self, t: T); }", q |-> ""],
+  \* a visible function DECLARATION without a body (configured out here; elsewhere a lower-level macro supplies the body)
+  pubdecl    |-> [toks |-> <<"#","[]","pub","fn","x","()",";">>, label |-> FALSE,
+                  text |-> "#[cfg(any())] pub fn nb{i}();", q |-> ""],
+  cratedecl  |-> [toks |-> <<"#","[]","pub","(vis)","fn","x","()","x","x","x",";">>, label |-> FALSE,
+                  text |-> "#[cfg(any())] pub(crate) fn nc{i}() -> u8;", q |-> ""]
 ]
 Ids == DOMAIN Cat
 
